@@ -234,6 +234,8 @@ void reb_integrator_saba_part1(struct reb_simulation* const r){
     if (ri_saba->safe_mode || ri_whfast->recalculate_coordinates_this_timestep){
         reb_integrator_whfast_from_inertial(r);
         ri_whfast->recalculate_coordinates_this_timestep = 0;
+        // The internal coordinates now are the synchronized inertial ones (matters if keep_unsynchronized is set).
+        ri_saba->is_synchronized = 1;
     }
     if (type>=0x100){ // Correctors on
         if (ri_saba->is_synchronized){
